@@ -68,19 +68,19 @@ impl DiameterServer {
                     let acceptor = native_tls::TlsAcceptor::new(identity.clone())?;
                     let acceptor = tokio_native_tls::TlsAcceptor::from(acceptor);
                     let (stream, peer_addr) = self.listener.accept().await?;
-                    match acceptor.accept(stream).await {
-                        Ok(stream) => {
-                            Self::handle_peer(
-                                peer_addr,
-                                stream,
-                                handler.clone(),
-                                Arc::clone(&dict),
-                            );
+                    let handler = handler.clone();
+                    let dict = Arc::clone(&dict);
+                    // The handshake runs in its own task so that a slow peer cannot block the accept loop
+                    tokio::spawn(async move {
+                        match acceptor.accept(stream).await {
+                            Ok(stream) => {
+                                Self::handle_peer(peer_addr, stream, handler, dict);
+                            }
+                            Err(e) => {
+                                log::error!("TLS handshake failed: {:?}", e);
+                            }
                         }
-                        Err(e) => {
-                            log::error!("TLS handshake failed: {:?}", e);
-                        }
-                    }
+                    });
                 }
                 None => {
                     let (stream, peer_addr) = self.listener.accept().await?;
